@@ -56,102 +56,112 @@ End TyInd.
 (* [bd = true]: both runs succeed or fail alike (same value / same error, related
    states).  [bd = false]: only successes of the first run are tracked — used
    for "a successful read does not depend on what follows". *)
-Definition rel_res {A S1 S2} (bd : bool) (rho : S1 -> S2 -> Prop) (m1 : res A S1) (m2 : res A S2) : Prop :=
+(* [rhoe e s1 f s2] relates the error outcomes (codes and states). *)
+Definition rel_resg {A S1 S2} (bd : bool) (rho : S1 -> S2 -> Prop) (rhoe : N -> S1 -> N -> S2 -> Prop)
+           (m1 : res A S1) (m2 : res A S2) : Prop :=
   match m1 with
   | Ok a s1 => match m2 with Ok b s2 => a = b /\ rho s1 s2 | Err _ _ => False end
   | Err e s1 =>
-      if bd then match m2 with Err f s2 => e = f /\ rho s1 s2 | Ok _ _ => False end
+      if bd then match m2 with Err f s2 => rhoe e s1 f s2 | Ok _ _ => False end
       else True
   end.
+
+(* the common case: same error code, states related as for success *)
+Definition same_err {S1 S2} (rho : S1 -> S2 -> Prop) : N -> S1 -> N -> S2 -> Prop :=
+  fun e s1 f s2 => e = f /\ rho s1 s2.
 
 Section WithDirection.
 Variable bd : bool.
 
-Lemma rel_bind {A B S1 S2} (rho : S1 -> S2 -> Prop)
+Lemma rel_bind {A B S1 S2} (rho : S1 -> S2 -> Prop) (rhoe : N -> S1 -> N -> S2 -> Prop)
       (m1 : res A S1) (m2 : res A S2) (f1 : A -> S1 -> res B S1) (f2 : A -> S2 -> res B S2) :
-  rel_res bd rho m1 m2 ->
-  (forall a s1 s2, rho s1 s2 -> rel_res bd rho (f1 a s1) (f2 a s2)) ->
-  rel_res bd rho (bind m1 f1) (bind m2 f2).
+  rel_resg bd rho rhoe m1 m2 ->
+  (forall a s1 s2, rho s1 s2 -> rel_resg bd rho rhoe (f1 a s1) (f2 a s2)) ->
+  rel_resg bd rho rhoe (bind m1 f1) (bind m2 f2).
 Proof.
-  unfold rel_res. destruct m1 as [a s1|e s1], m2 as [b s2|f s2]; cbn [bind]; intros H Hf;
+  unfold rel_resg. destruct m1 as [a s1|e s1], m2 as [b s2|f s2]; cbn [bind]; intros H Hf;
     try contradiction; try exact H.
   - destruct H as [-> H]. apply Hf, H.
   - destruct bd; [contradiction|exact I].
 Qed.
 
-Lemma rel_rmap {A B S1 S2} (rho : S1 -> S2 -> Prop) (g : A -> B)
+Lemma rel_rmap {A B S1 S2} (rho : S1 -> S2 -> Prop) (rhoe : N -> S1 -> N -> S2 -> Prop) (g : A -> B)
       (m1 : res A S1) (m2 : res A S2) :
-  rel_res bd rho m1 m2 -> rel_res bd rho (rmap g m1) (rmap g m2).
+  rel_resg bd rho rhoe m1 m2 -> rel_resg bd rho rhoe (rmap g m1) (rmap g m2).
 Proof.
-  unfold rel_res. destruct m1, m2; cbn [rmap]; intros H; try contradiction; try exact H.
+  unfold rel_resg. destruct m1, m2; cbn [rmap]; intros H; try contradiction; try exact H.
   destruct H as [-> H]; auto.
 Qed.
 
-Lemma rel_ok {A S1 S2} (rho : S1 -> S2 -> Prop) (a : A) s1 s2 :
-  rho s1 s2 -> rel_res bd rho (Ok a s1) (Ok a s2).
+Lemma rel_ok {A S1 S2} (rho : S1 -> S2 -> Prop) (rhoe : N -> S1 -> N -> S2 -> Prop) (a : A) s1 s2 :
+  rho s1 s2 -> rel_resg bd rho rhoe (Ok a s1) (Ok a s2).
 Proof. cbn; auto. Qed.
 
-Lemma rel_err {A S1 S2} (rho : S1 -> S2 -> Prop) e s1 s2 :
-  rho s1 s2 -> rel_res bd rho (@Err A _ e s1) (@Err A _ e s2).
-Proof. unfold rel_res. destruct bd; auto. Qed.
+Lemma rel_err {A S1 S2} (rho : S1 -> S2 -> Prop) (rhoe : N -> S1 -> N -> S2 -> Prop) e s1 s2 :
+  (forall e s1 s2, rho s1 s2 -> rhoe e s1 e s2) ->
+  rho s1 s2 -> rel_resg bd rho rhoe (@Err A _ e s1) (@Err A _ e s2).
+Proof. intros Hsub H. unfold rel_resg. destruct bd; auto. Qed.
 
 (* ---- readers ---------------------------------------------------------------- *)
-Record rops_rel {R1 R2} (rho : R1 -> R2 -> Prop) (o1 : rops R1) (o2 : rops R2) : Prop := {
-  rr_ensure : forall n r1 r2, rho r1 r2 -> rel_res bd rho (r_ensure o1 n r1) (r_ensure o2 n r2);
-  rr_read1 : forall r1 r2, rho r1 r2 -> rel_res bd rho (r_read1 o1 r1) (r_read1 o2 r2);
-  rr_readn : forall n r1 r2, rho r1 r2 -> rel_res bd rho (r_readn o1 n r1) (r_readn o2 n r2);
-  rr_skip : forall n r1 r2, rho r1 r2 -> rel_res bd rho (r_skip o1 n r1) (r_skip o2 n r2);
-  rr_gethandle : forall h r1 r2, rho r1 r2 -> rel_res bd rho (r_gethandle o1 h r1) (r_gethandle o2 h r2)
+Record rops_relg {R1 R2} (rho : R1 -> R2 -> Prop) (rhoe : N -> R1 -> N -> R2 -> Prop) (o1 : rops R1) (o2 : rops R2) : Prop := {
+  rr_sub : forall e r1 r2, rho r1 r2 -> rhoe e r1 e r2;
+  rr_ensure : forall n r1 r2, rho r1 r2 -> rel_resg bd rho rhoe (r_ensure o1 n r1) (r_ensure o2 n r2);
+  rr_read1 : forall r1 r2, rho r1 r2 -> rel_resg bd rho rhoe (r_read1 o1 r1) (r_read1 o2 r2);
+  rr_readn : forall n r1 r2, rho r1 r2 -> rel_resg bd rho rhoe (r_readn o1 n r1) (r_readn o2 n r2);
+  rr_skip : forall n r1 r2, rho r1 r2 -> rel_resg bd rho rhoe (r_skip o1 n r1) (r_skip o2 n r2);
+  rr_gethandle : forall h r1 r2, rho r1 r2 -> rel_resg bd rho rhoe (r_gethandle o1 h r1) (r_gethandle o2 h r2)
 }.
 
+Ltac relerr Hops H := apply (rel_err _ _ _ _ _ (rr_sub _ _ _ _ Hops)); exact H.
+
 Section ReadSim.
-  Context {R1 R2 : Type} (rho : R1 -> R2 -> Prop) (o1 : rops R1) (o2 : rops R2).
-  Hypothesis Hops : rops_rel rho o1 o2.
+  Context {R1 R2 : Type} (rho : R1 -> R2 -> Prop) (rhoe : N -> R1 -> N -> R2 -> Prop) (o1 : rops R1) (o2 : rops R2).
+  Hypothesis Hops : rops_relg rho rhoe o1 o2.
 
   Lemma read_scalar_payload_sim s p r1 r2 :
-    rho r1 r2 -> rel_res bd rho (read_scalar_payload o1 s p r1) (read_scalar_payload o2 s p r2).
+    rho r1 r2 -> rel_resg bd rho rhoe (read_scalar_payload o1 s p r1) (read_scalar_payload o2 s p r2).
   Proof.
     intros H. unfold read_scalar_payload.
     destruct s; try (apply rel_ok; exact H);
       (destruct (class_len p =? 0)%nat; [apply rel_ok; exact H|];
-       apply rel_bind; [apply (rr_readn _ _ _ Hops); exact H|];
+       apply rel_bind; [apply (rr_readn _ _ _ _ Hops); exact H|];
        intros; apply rel_ok; assumption).
   Qed.
 
   Lemma read_scalar_sim s r1 r2 :
-    rho r1 r2 -> rel_res bd rho (read_scalar o1 s r1) (read_scalar o2 s r2).
+    rho r1 r2 -> rel_resg bd rho rhoe (read_scalar o1 s r1) (read_scalar o2 s r2).
   Proof.
     intros H. unfold read_scalar. apply rel_bind.
-    - apply (rr_read1 _ _ _ Hops); exact H.
+    - apply (rr_read1 _ _ _ _ Hops); exact H.
     - intros p s1 s2 Hs. destruct (scalar_match s p).
       + apply read_scalar_payload_sim; exact Hs.
-      + apply rel_err; exact Hs.
+      + relerr Hops Hs.
   Qed.
 
   Lemma read_u64_sim r1 r2 :
-    rho r1 r2 -> rel_res bd rho (read_u64 o1 r1) (read_u64 o2 r2).
+    rho r1 r2 -> rel_resg bd rho rhoe (read_u64 o1 r1) (read_u64 o2 r2).
   Proof. intros H. unfold read_u64. apply rel_rmap, read_scalar_sim, H. Qed.
 
   Lemma dec_with_sim m dp1 dp2 r1 r2 :
-    (forall p s1 s2, rho s1 s2 -> rel_res bd rho (dp1 p s1) (dp2 p s2)) ->
-    rho r1 r2 -> rel_res bd rho (dec_with o1 m dp1 r1) (dec_with o2 m dp2 r2).
+    (forall p s1 s2, rho s1 s2 -> rel_resg bd rho rhoe (dp1 p s1) (dp2 p s2)) ->
+    rho r1 r2 -> rel_resg bd rho rhoe (dec_with o1 m dp1 r1) (dec_with o2 m dp2 r2).
   Proof.
     intros Hdp H. unfold dec_with. apply rel_bind.
-    - apply (rr_read1 _ _ _ Hops); exact H.
-    - intros p s1 s2 Hs. destruct (m p); [apply Hdp|apply rel_err]; exact Hs.
+    - apply (rr_read1 _ _ _ _ Hops); exact H.
+    - intros p s1 s2 Hs. destruct (m p); [apply Hdp; exact Hs|relerr Hops Hs].
   Qed.
 
   Lemma skip_entry_sim r1 r2 :
-    rho r1 r2 -> rel_res bd rho (skip_entry o1 r1) (skip_entry o2 r2).
+    rho r1 r2 -> rel_resg bd rho rhoe (skip_entry o1 r1) (skip_entry o2 r2).
   Proof.
     intros H. unfold skip_entry. apply rel_bind; [apply read_u64_sim; exact H|].
-    intros; apply (rr_skip _ _ _ Hops); assumption.
+    intros; apply (rr_skip _ _ _ _ Hops); assumption.
   Qed.
 
   (* loops *)
   Section Loop.
     Context {X : Type} (f1 : X -> R1 -> res X R1) (f2 : X -> R2 -> res X R2).
-    Hypothesis Hf : forall x s1 s2, rho s1 s2 -> rel_res bd rho (f1 x s1) (f2 x s2).
+    Hypothesis Hf : forall x s1 s2, rho s1 s2 -> rel_resg bd rho rhoe (f1 x s1) (f2 x s2).
 
     Let g1 := fun st : X * R1 =>
                 match f1 (fst st) (snd st) with
@@ -164,13 +174,13 @@ Section ReadSim.
       match a with
       | inl (x, s1) => match b with inl (y, s2) => x = y /\ rho s1 s2 | inr _ => False end
       | inr (e, s1) =>
-          if bd then match b with inr (f, s2) => e = f /\ rho s1 s2 | inl _ => False end
+          if bd then match b with inr (f, s2) => rhoe e s1 f s2 | inl _ => False end
           else True
       end.
 
     Lemma g_sim x s1 s2 : rho s1 s2 -> rel_sum (g1 (x, s1)) (g2 (x, s2)).
     Proof.
-      intros H. unfold g1, g2; cbn [fst snd]. specialize (Hf x s1 s2 H). unfold rel_res in Hf.
+      intros H. unfold g1, g2; cbn [fst snd]. specialize (Hf x s1 s2 H). unfold rel_resg in Hf.
       destruct (f1 x s1), (f2 x s2); cbn in *; try contradiction; exact Hf.
     Qed.
 
@@ -205,12 +215,12 @@ Section ReadSim.
     Qed.
 
     Lemma loop_res_sim n x r1 r2 :
-      rho r1 r2 -> rel_res bd rho (loop_res n f1 x r1) (loop_res n f2 x r2).
+      rho r1 r2 -> rel_resg bd rho rhoe (loop_res n f1 x r1) (loop_res n f2 x r2).
     Proof.
       intros H. unfold loop_res. fold g1 g2.
       destruct n as [|p]; cbn [iter_N].
       - cbn. auto.
-      - pose proof (iter_pos_sim p x r1 r2 H) as H1. unfold rel_res.
+      - pose proof (iter_pos_sim p x r1 r2 H) as H1. unfold rel_resg.
         destruct (iter_pos g1 p (x, r1)) as [[y1 u1]|[e1 u1]],
                  (iter_pos g2 p (x, r2)) as [[y2 u2]|[e2 u2]];
           cbn in H1 |- *; try contradiction; exact H1.
@@ -219,94 +229,99 @@ Section ReadSim.
 End ReadSim.
 
 (* Bounded readers over related readers are related *)
+Definition brele {R1 R2} (rhoe : N -> R1 -> N -> R2 -> Prop) : N -> Bounded R1 -> N -> Bounded R2 -> Prop :=
+  fun e b1 f b2 => rhoe e (b_inner b1) f (b_inner b2) /\ b_size b1 = b_size b2 /\ b_index b1 = b_index b2.
+
 Definition brel {R1 R2} (rho : R1 -> R2 -> Prop) (b1 : Bounded R1) (b2 : Bounded R2) : Prop :=
   rho (b_inner b1) (b_inner b2) /\ b_size b1 = b_size b2 /\ b_index b1 = b_index b2.
 
-Lemma b_lift_sim {A R1 R2} (rho : R1 -> R2 -> Prop) (b1 : Bounded R1) (b2 : Bounded R2) adv
+Lemma b_lift_sim {A R1 R2} (rho : R1 -> R2 -> Prop) (rhoe : N -> R1 -> N -> R2 -> Prop) (b1 : Bounded R1) (b2 : Bounded R2) adv
       (m1 : res A R1) (m2 : res A R2) :
-  brel rho b1 b2 -> rel_res bd rho m1 m2 -> rel_res bd (brel rho) (b_lift b1 adv m1) (b_lift b2 adv m2).
+  brel rho b1 b2 -> rel_resg bd rho rhoe m1 m2 -> rel_resg bd (brel rho) (brele rhoe) (b_lift b1 adv m1) (b_lift b2 adv m2).
 Proof.
   intros (Hi & Hs & Hx) H. unfold b_lift, b_with.
-  unfold rel_res in *. destruct m1, m2; try contradiction.
+  unfold rel_resg in *. destruct m1, m2; try contradiction.
   - destruct H as [-> H]. split; [reflexivity|].
     unfold brel, b_inner, b_size, b_index in *; cbn; rewrite Hs, Hx; auto.
   - destruct bd; [contradiction|exact I].
-  - destruct bd; [|exact I]. destruct H as [-> H]. split; [reflexivity|].
-    unfold brel, b_inner, b_size, b_index in *; cbn; rewrite Hs, Hx; auto.
+  - destruct bd; [|exact I]. unfold brele, b_inner, b_size, b_index in *; cbn. rewrite Hs, Hx. auto.
 Qed.
 
-Lemma b_keep_sim {A R1 R2} (rho : R1 -> R2 -> Prop) (b1 : Bounded R1) (b2 : Bounded R2)
+Lemma b_keep_sim {A R1 R2} (rho : R1 -> R2 -> Prop) (rhoe : N -> R1 -> N -> R2 -> Prop) (b1 : Bounded R1) (b2 : Bounded R2)
       (m1 : res A R1) (m2 : res A R2) :
-  brel rho b1 b2 -> rel_res bd rho m1 m2 -> rel_res bd (brel rho) (b_keep b1 m1) (b_keep b2 m2).
+  brel rho b1 b2 -> rel_resg bd rho rhoe m1 m2 -> rel_resg bd (brel rho) (brele rhoe) (b_keep b1 m1) (b_keep b2 m2).
 Proof.
   intros (Hi & Hs & Hx) H. unfold b_keep, b_with.
-  unfold rel_res in *. destruct m1, m2; try contradiction.
+  unfold rel_resg in *. destruct m1, m2; try contradiction.
   - destruct H as [-> H]. split; [reflexivity|].
     unfold brel, b_inner, b_size, b_index in *; cbn; rewrite Hs, Hx; auto.
   - destruct bd; [contradiction|exact I].
-  - destruct bd; [|exact I]. destruct H as [-> H]. split; [reflexivity|].
-    unfold brel, b_inner, b_size, b_index in *; cbn; rewrite Hs, Hx; auto.
+  - destruct bd; [|exact I]. unfold brele, b_inner, b_size, b_index in *; cbn. rewrite Hs, Hx. auto.
 Qed.
 
-Lemma bounded_rops_rel {R1 R2} (rho : R1 -> R2 -> Prop) o1 o2 :
-  rops_rel rho o1 o2 -> rops_rel (brel rho) (bounded_rops o1) (bounded_rops o2).
+Lemma bounded_rops_rel {R1 R2} (rho : R1 -> R2 -> Prop) (rhoe : N -> R1 -> N -> R2 -> Prop) o1 o2 :
+  rops_relg rho rhoe o1 o2 -> rops_relg (brel rho) (brele rhoe) (bounded_rops o1) (bounded_rops o2).
 Proof.
-  intros Hops. split; cbn [bounded_rops r_ensure r_read1 r_readn r_skip r_gethandle].
+  intros Hops.
+  assert (Hsubb : forall e (c1 : Bounded R1) (c2 : Bounded R2), brel rho c1 c2 -> brele rhoe e c1 e c2)
+    by (intros e c1 c2 (Hc & Hs' & Hx'); split; [apply (rr_sub _ _ _ _ Hops), Hc|auto]).
+  split; cbn [bounded_rops r_ensure r_read1 r_readn r_skip r_gethandle].
+  - exact Hsubb.
   - intros n b1 b2 H. pose proof H as (Hi & Hs & Hx). rewrite Hs, Hx.
-    destruct (sub64 (b_size b2) (b_index b2) <? n); [apply rel_err; exact H|].
-    apply b_keep_sim; [exact H|]. apply (rr_ensure _ _ _ Hops), Hi.
+    destruct (sub64 (b_size b2) (b_index b2) <? n); [apply (rel_err _ _ _ _ _ Hsubb); exact H|].
+    apply b_keep_sim; [exact H|]. apply (rr_ensure _ _ _ _ Hops), Hi.
   - intros b1 b2 H. pose proof H as (Hi & Hs & Hx). rewrite Hs, Hx.
-    destruct (b_index b2 <? b_size b2); [|apply rel_err; exact H].
-    apply b_lift_sim; [exact H|]. apply (rr_read1 _ _ _ Hops), Hi.
+    destruct (b_index b2 <? b_size b2); [|apply (rel_err _ _ _ _ _ Hsubb); exact H].
+    apply b_lift_sim; [exact H|]. apply (rr_read1 _ _ _ _ Hops), Hi.
   - intros n b1 b2 H. pose proof H as (Hi & Hs & Hx). rewrite Hs, Hx.
-    destruct (sub64 (b_size b2) (b_index b2) <? n); [apply rel_err; exact H|].
-    apply b_lift_sim; [exact H|]. apply (rr_readn _ _ _ Hops), Hi.
+    destruct (sub64 (b_size b2) (b_index b2) <? n); [apply (rel_err _ _ _ _ _ Hsubb); exact H|].
+    apply b_lift_sim; [exact H|]. apply (rr_readn _ _ _ _ Hops), Hi.
   - intros n b1 b2 H. pose proof H as (Hi & Hs & Hx). rewrite Hs, Hx.
-    destruct (sub64 (b_size b2) (b_index b2) <? n); [apply rel_err; exact H|].
-    apply b_lift_sim; [exact H|]. apply (rr_skip _ _ _ Hops), Hi.
+    destruct (sub64 (b_size b2) (b_index b2) <? n); [apply (rel_err _ _ _ _ _ Hsubb); exact H|].
+    apply b_lift_sim; [exact H|]. apply (rr_skip _ _ _ _ Hops), Hi.
   - intros h b1 b2 H. pose proof H as (Hi & Hs & Hx).
-    apply b_keep_sim; [exact H|]. apply (rr_gethandle _ _ _ Hops), Hi.
+    apply b_keep_sim; [exact H|]. apply (rr_gethandle _ _ _ _ Hops), Hi.
 Qed.
 
-Lemma bounded_read_padding_sim {R1 R2} (rho : R1 -> R2 -> Prop) o1 o2 b1 b2 :
-  rops_rel rho o1 o2 -> brel rho b1 b2 ->
-  rel_res bd (brel rho) (bounded_read_padding o1 b1) (bounded_read_padding o2 b2).
+Lemma bounded_read_padding_sim {R1 R2} (rho : R1 -> R2 -> Prop) (rhoe : N -> R1 -> N -> R2 -> Prop) o1 o2 b1 b2 :
+  rops_relg rho rhoe o1 o2 -> brel rho b1 b2 ->
+  rel_resg bd (brel rho) (brele rhoe) (bounded_read_padding o1 b1) (bounded_read_padding o2 b2).
 Proof.
   intros Hops H. pose proof H as (Hi & Hs & Hx). unfold bounded_read_padding.
-  rewrite Hs, Hx. apply b_lift_sim; [exact H|]. apply (rr_skip _ _ _ Hops), Hi.
+  rewrite Hs, Hx. apply b_lift_sim; [exact H|]. apply (rr_skip _ _ _ _ Hops), Hi.
 Qed.
 
-Lemma framed_read_sim {R1 R2} (rho : R1 -> R2 -> Prop) o1 o2
+Lemma framed_read_sim {R1 R2} (rho : R1 -> R2 -> Prop) (rhoe : N -> R1 -> N -> R2 -> Prop) o1 o2
       (d1 : Bounded R1 -> res val (Bounded R1)) (d2 : Bounded R2 -> res val (Bounded R2)) :
-  rops_rel rho o1 o2 ->
-  (forall b1 b2, brel rho b1 b2 -> rel_res bd (brel rho) (d1 b1) (d2 b2)) ->
-  forall r1 r2, rho r1 r2 -> rel_res bd rho (framed_read o1 d1 r1) (framed_read o2 d2 r2).
+  rops_relg rho rhoe o1 o2 ->
+  (forall b1 b2, brel rho b1 b2 -> rel_resg bd (brel rho) (brele rhoe) (d1 b1) (d2 b2)) ->
+  forall r1 r2, rho r1 r2 -> rel_resg bd rho rhoe (framed_read o1 d1 r1) (framed_read o2 d2 r2).
 Proof.
   intros Hops Hd r1 r2 Hr. unfold framed_read.
   apply rel_bind; [apply read_u64_sim; assumption|]. intros sz y1 y2 Hy.
   assert (Hb : brel rho (b_make y1 sz) (b_make y2 sz))
     by (unfold brel, b_make, b_inner, b_size, b_index; cbn; auto).
-  pose proof (Hd _ _ Hb) as H. unfold rel_res in H |- *.
+  pose proof (Hd _ _ Hb) as H. unfold rel_resg in H |- *.
   destruct (d1 (b_make y1 sz)) as [v1 c1|e1 c1], (d2 (b_make y2 sz)) as [v2 c2|e2 c2];
     try contradiction.
   - destruct H as [-> Hc].
-    pose proof (bounded_read_padding_sim rho o1 o2 c1 c2 Hops Hc) as Hp. unfold rel_res in Hp.
+    pose proof (bounded_read_padding_sim rho rhoe o1 o2 c1 c2 Hops Hc) as Hp. unfold rel_resg in Hp.
     destruct (bounded_read_padding o1 c1), (bounded_read_padding o2 c2); try contradiction.
     + destruct Hp as [_ Hp]. split; [reflexivity|apply Hp].
     + destruct bd; [contradiction|exact I].
-    + destruct bd; [|exact I]. destruct Hp as [-> Hp]. split; [reflexivity|apply Hp].
+    + destruct bd; [|exact I]. apply Hp.
   - destruct bd; [contradiction|exact I].
-  - destruct bd; [|exact I]. destruct H as [-> Hc]. split; [reflexivity|apply Hc].
+  - destruct bd; [|exact I]. apply H.
 Qed.
 
-Lemma find_entry_sim {R1 R2} (rho : R1 -> R2 -> Prop) o1 o2 id
+Lemma find_entry_sim {R1 R2} (rho : R1 -> R2 -> Prop) (rhoe : N -> R1 -> N -> R2 -> Prop) o1 o2 id
       (es1 : list (N * bool * (R1 -> res val R1))) (es2 : list (N * bool * (R2 -> res val R2))) :
-  rops_rel rho o1 o2 ->
+  rops_relg rho rhoe o1 o2 ->
   Forall2 (fun (e1 : N * bool * (R1 -> res val R1)) (e2 : N * bool * (R2 -> res val R2)) =>
              fst e1 = fst e2 /\
-             forall r1 r2, rho r1 r2 -> rel_res bd rho (snd e1 r1) (snd e2 r2)) es1 es2 ->
+             forall r1 r2, rho r1 r2 -> rel_resg bd rho rhoe (snd e1 r1) (snd e2 r2)) es1 es2 ->
   forall slots r1 r2, rho r1 r2 ->
-  rel_res bd rho (find_entry o1 id es1 slots r1) (find_entry o2 id es2 slots r2).
+  rel_resg bd rho rhoe (find_entry o1 id es1 slots r1) (find_entry o2 id es2 slots r2).
 Proof.
   intros Hops H. induction H as [|[[eid1 act1] rd1] [[eid2 act2] rd2] es1' es2' [He Hrd] _ IH];
     intros slots r1 r2 Hr; cbn [find_entry].
@@ -316,39 +331,39 @@ Proof.
     + apply rel_bind; [apply skip_entry_sim; assumption|]. intros; apply rel_ok; assumption.
     + destruct (eid2 =? id).
       * destruct act2.
-        -- destruct sl; try (apply rel_err; exact Hr).
+        -- destruct sl; try (relerr Hops Hr).
            apply rel_bind; [apply Hrd; exact Hr|]. intros; apply rel_ok; assumption.
         -- apply rel_bind; [apply skip_entry_sim; assumption|]. intros; apply rel_ok; assumption.
       * apply rel_bind; [apply IH; exact Hr|]. intros; apply rel_ok; assumption.
 Qed.
 
 (* ---- the logical-relation lemma for Encoding<T>::ReadPayload ---------------- *)
-Theorem decp_sim : forall (t : ty) (p : N) (R1 R2 : Type) (rho : R1 -> R2 -> Prop)
+Theorem decp_sim : forall (t : ty) (p : N) (R1 R2 : Type) (rho : R1 -> R2 -> Prop) (rhoe : N -> R1 -> N -> R2 -> Prop)
                           (o1 : rops R1) (o2 : rops R2),
-    rops_rel rho o1 o2 ->
-    forall r1 r2, rho r1 r2 -> rel_res bd rho (decp t p R1 o1 r1) (decp t p R2 o2 r2).
+    rops_relg rho rhoe o1 o2 ->
+    forall r1 r2, rho r1 r2 -> rel_resg bd rho rhoe (decp t p R1 o1 r1) (decp t p R2 o2 r2).
 Proof.
-  induction t using ty_ind'; intros p R1 R2 rho o1 o2 Hops r1 r2 Hr; cbn [decp].
+  induction t using ty_ind'; intros p R1 R2 rho rhoe o1 o2 Hops r1 r2 Hr; cbn [decp].
   - (* scalar *) apply rel_rmap, read_scalar_payload_sim; assumption.
   - (* string *)
     apply rel_bind; [apply read_u64_sim; assumption|]. intros len s1 s2 Hs.
-    destruct (negb (len mod cw =? 0)); [apply rel_err; exact Hs|].
-    apply rel_bind; [apply (rr_ensure _ _ _ Hops); exact Hs|]. intros _ s1' s2' Hs'.
-    apply rel_bind; [apply (rr_readn _ _ _ Hops); exact Hs'|]. intros; apply rel_ok; assumption.
+    destruct (negb (len mod cw =? 0)); [relerr Hops Hs|].
+    apply rel_bind; [apply (rr_ensure _ _ _ _ Hops); exact Hs|]. intros _ s1' s2' Hs'.
+    apply rel_bind; [apply (rr_readn _ _ _ _ Hops); exact Hs'|]. intros; apply rel_ok; assumption.
   - (* seq *)
     destruct (raw_kind t) as [[w sg]|].
     + apply rel_bind; [apply read_u64_sim; assumption|]. intros len s1 s2 Hs.
       destruct c as [|ca n|ca cap sk unb].
-      * destruct (negb (len mod N.of_nat w =? 0)); [apply rel_err; exact Hs|].
-        apply rel_bind; [apply (rr_ensure _ _ _ Hops); exact Hs|]. intros _ s1' s2' Hs'.
-        apply rel_bind; [apply (rr_readn _ _ _ Hops); exact Hs'|]. intros; apply rel_ok; assumption.
-      * destruct (negb (len =? n * N.of_nat w)); [apply rel_err; exact Hs|].
-        apply rel_bind; [apply (rr_readn _ _ _ Hops); exact Hs|]. intros; apply rel_ok; assumption.
+      * destruct (negb (len mod N.of_nat w =? 0)); [relerr Hops Hs|].
+        apply rel_bind; [apply (rr_ensure _ _ _ _ Hops); exact Hs|]. intros _ s1' s2' Hs'.
+        apply rel_bind; [apply (rr_readn _ _ _ _ Hops); exact Hs'|]. intros; apply rel_ok; assumption.
+      * destruct (negb (len =? n * N.of_nat w)); [relerr Hops Hs|].
+        apply rel_bind; [apply (rr_readn _ _ _ _ Hops); exact Hs|]. intros; apply rel_ok; assumption.
       * destruct ((negb unb && (cap * N.of_nat w <? len)) || negb (len mod N.of_nat w =? 0));
-          [apply rel_err; exact Hs|].
-        apply rel_bind; [apply (rr_readn _ _ _ Hops); exact Hs|]. intros; apply rel_ok; assumption.
+          [relerr Hops Hs|].
+        apply rel_bind; [apply (rr_readn _ _ _ _ Hops); exact Hs|]. intros; apply rel_ok; assumption.
     + apply rel_bind; [apply read_u64_sim; assumption|]. intros n s1 s2 Hs.
-      match goal with |- context [negb ?c] => destruct (negb c) end; [apply rel_err; exact Hs|].
+      match goal with |- context [negb ?c] => destruct (negb c) end; [relerr Hops Hs|].
       apply rel_bind.
       * apply loop_res_sim; [|exact Hs]. intros acc u1 u2 Hu.
         apply rel_bind; [|intros; apply rel_ok; assumption].
@@ -356,7 +371,7 @@ Proof.
       * intros; apply rel_ok; assumption.
   - (* tuple *)
     apply rel_bind; [apply read_u64_sim; assumption|]. intros n s1 s2 Hs.
-    destruct (negb (n =? nlen ts)); [apply rel_err; exact Hs|].
+    destruct (negb (n =? nlen ts)); [relerr Hops Hs|].
     apply rel_bind; [|intros; apply rel_ok; assumption].
     clear n. revert s1 s2 Hs. induction H as [|t' ts' Ht' _ IHts]; intros s1 s2 Hs.
     + apply rel_ok; exact Hs.
@@ -381,24 +396,24 @@ Proof.
     apply rel_rmap, IHt; assumption.
   - (* variant *)
     apply rel_bind; [apply read_scalar_sim; assumption|]. intros i s1 s2 Hs.
-    destruct ((i <? -1)%Z || (Z.of_N (nlen ts) <=? i)%Z); [apply rel_err; exact Hs|].
+    destruct ((i <? -1)%Z || (Z.of_N (nlen ts) <=? i)%Z); [relerr Hops Hs|].
     destruct (i =? -1)%Z.
     + apply dec_with_sim; [assumption| |exact Hs]. intros; apply rel_ok; assumption.
     + generalize (Z.to_nat i) as n. induction H as [|t' ts' Ht' _ IHts]; intros n.
-      * apply rel_err; exact Hs.
+      * relerr Hops Hs.
       * destruct n as [|n'].
         -- apply rel_rmap. apply dec_with_sim; [assumption| |exact Hs].
            intros; apply Ht'; assumption.
         -- apply IHts.
   - (* handle *)
     apply rel_bind; [apply read_scalar_sim; assumption|]. intros tg s1 s2 Hs.
-    destruct (negb (tg =? tag)%Z); [apply rel_err; exact Hs|].
+    destruct (negb (tg =? tag)%Z); [relerr Hops Hs|].
     apply rel_bind; [apply read_scalar_sim; assumption|]. intros ref u1 u2 Hu.
-    apply rel_bind; [apply (rr_gethandle _ _ _ Hops); exact Hu|].
+    apply rel_bind; [apply (rr_gethandle _ _ _ _ Hops); exact Hu|].
     intros; apply rel_ok; assumption.
   - (* table *)
     apply rel_bind; [apply read_u64_sim; assumption|]. intros hh s1 s2 Hs.
-    destruct (negb (hh =? h)); [apply rel_err; exact Hs|].
+    destruct (negb (hh =? h)); [relerr Hops Hs|].
     apply rel_bind; [apply read_u64_sim; assumption|]. intros count u1 u2 Hu.
     apply rel_bind; [|intros; apply rel_ok; assumption].
     apply loop_res_sim; [|exact Hu]. intros slots w1 w2 Hw.
@@ -406,8 +421,75 @@ Proof.
     apply find_entry_sim; [assumption| |exact Hx].
     clear -H Hops. induction H as [|[[eid act] t'] es' Ht' _ IHes]; cbn [map]; constructor; auto.
     cbn [fst snd] in *. split; [reflexivity|]. intros y1 y2 Hy.
-    pose proof (bounded_rops_rel rho o1 o2 Hops) as Hbops.
+    pose proof (bounded_rops_rel rho rhoe o1 o2 Hops) as Hbops.
     apply framed_read_sim; [assumption| |exact Hy]. intros b1 b2 Hb.
     apply dec_with_sim; [exact Hbops| |exact Hb]. intros p c1 c2 Hc. apply Ht'; assumption.
 Qed.
 End WithDirection.
+
+(* ---- the common instance: equal error codes, states related as for success -- *)
+Arguments same_err {S1 S2} rho e s1 f s2 /.
+
+Definition rel_res {A S1 S2} (bd : bool) (rho : S1 -> S2 -> Prop) (m1 : res A S1) (m2 : res A S2) : Prop :=
+  rel_resg bd rho (same_err rho) m1 m2.
+
+Definition rops_rel {R1 R2} (bd : bool) (rho : R1 -> R2 -> Prop) (o1 : rops R1) (o2 : rops R2) : Prop :=
+  rops_relg bd rho (same_err rho) o1 o2.
+
+Lemma rel_resg_weaken {A S1 S2} bd (rho : S1 -> S2 -> Prop) (re re' : N -> S1 -> N -> S2 -> Prop)
+      (m1 : res A S1) (m2 : res A S2) :
+  (forall e s1 f s2, re e s1 f s2 -> re' e s1 f s2) ->
+  rel_resg bd rho re m1 m2 -> rel_resg bd rho re' m1 m2.
+Proof.
+  intros H. unfold rel_resg. destruct m1, m2; auto. destruct bd; auto.
+Qed.
+
+Lemma rops_relg_weaken {R1 R2} bd (rho : R1 -> R2 -> Prop) (re re' : N -> R1 -> N -> R2 -> Prop) o1 o2 :
+  (forall e s1 f s2, re e s1 f s2 -> re' e s1 f s2) ->
+  rops_relg bd rho re o1 o2 -> rops_relg bd rho re' o1 o2.
+Proof.
+  intros H [H0 H1 H2 H3 H4 H5]. split; intros.
+  - apply H, H0; assumption.
+  - eapply rel_resg_weaken; [exact H|apply H1; assumption].
+  - eapply rel_resg_weaken; [exact H|apply H2; assumption].
+  - eapply rel_resg_weaken; [exact H|apply H3; assumption].
+  - eapply rel_resg_weaken; [exact H|apply H4; assumption].
+  - eapply rel_resg_weaken; [exact H|apply H5; assumption].
+Qed.
+
+Lemma bounded_rops_rel1 {R1 R2} bd (rho : R1 -> R2 -> Prop) o1 o2 :
+  rops_rel bd rho o1 o2 -> rops_rel bd (brel rho) (bounded_rops o1) (bounded_rops o2).
+Proof.
+  intros H. unfold rops_rel in *.
+  apply (rops_relg_weaken bd (brel rho) (brele (same_err rho))); [|apply bounded_rops_rel, H].
+  intros e b1 f b2 ((-> & Hr) & Hs & Hx). cbn. unfold brel. auto.
+Qed.
+
+Lemma mk_rops_rel {R1 R2} bd (rho : R1 -> R2 -> Prop) (o1 : rops R1) (o2 : rops R2) :
+  (forall n r1 r2, rho r1 r2 -> rel_res bd rho (r_ensure o1 n r1) (r_ensure o2 n r2)) ->
+  (forall r1 r2, rho r1 r2 -> rel_res bd rho (r_read1 o1 r1) (r_read1 o2 r2)) ->
+  (forall n r1 r2, rho r1 r2 -> rel_res bd rho (r_readn o1 n r1) (r_readn o2 n r2)) ->
+  (forall n r1 r2, rho r1 r2 -> rel_res bd rho (r_skip o1 n r1) (r_skip o2 n r2)) ->
+  (forall h r1 r2, rho r1 r2 -> rel_res bd rho (r_gethandle o1 h r1) (r_gethandle o2 h r2)) ->
+  rops_rel bd rho o1 o2.
+Proof. intros. split; auto. intros e r1 r2 Hr. cbn. auto. Qed.
+
+Lemma rel_res_unfold {A S1 S2} bd (rho : S1 -> S2 -> Prop) (m1 : res A S1) (m2 : res A S2) :
+  rel_res bd rho m1 m2 =
+  match m1 with
+  | Ok a s1 => match m2 with Ok b s2 => a = b /\ rho s1 s2 | Err _ _ => False end
+  | Err e s1 => if bd then match m2 with Err f s2 => e = f /\ rho s1 s2 | Ok _ _ => False end else True
+  end.
+Proof. reflexivity. Qed.
+
+Theorem decp_sim1 : forall (t : ty) (p : N) bd (R1 R2 : Type) (rho : R1 -> R2 -> Prop)
+                           (o1 : rops R1) (o2 : rops R2),
+    rops_rel bd rho o1 o2 ->
+    forall r1 r2, rho r1 r2 -> rel_res bd rho (decp t p R1 o1 r1) (decp t p R2 o2 r2).
+Proof. intros. unfold rel_res. eapply decp_sim; eassumption. Qed.
+
+Lemma dec_with_sim1 {R1 R2} bd (rho : R1 -> R2 -> Prop) o1 o2 m dp1 dp2 r1 r2 :
+  rops_rel bd rho o1 o2 ->
+  (forall p s1 s2, rho s1 s2 -> rel_res bd rho (dp1 p s1) (dp2 p s2)) ->
+  rho r1 r2 -> rel_res bd rho (dec_with o1 m dp1 r1) (dec_with o2 m dp2 r2).
+Proof. intros. unfold rel_res. eapply dec_with_sim; eassumption. Qed.
